@@ -68,3 +68,12 @@ Example C19_example :
   let s := run (init 8000 32768 32768 32768 false) ops in
   (emitted s, g_res s, g_adjin s, ow s, g_cons s, g_grant s) = (8000, 13000, 5000, 0, 5000, 5000).
 Proof. split; [repeat (apply Forall_cons; [cbn; lia|]); apply Forall_nil | vm_compute; reflexivity]. Qed.
+
+(* non-vacuity with the combine / half-close ops: unread stderr data moved by set_combine_stderr(True) is
+   credited exactly once, when the application reads it; a half-closed sender sends nothing more *)
+Example C19_example_combine :
+  let ops := [OSend (Some 1) 5000; OEmit 0; ODeliver; OCombine true; ORecv false 5000; OShutW; OSend None 10] in
+  Forall op_wf ops /\
+  let s := run (init 32768 32768 32768 32768 false) ops in
+  (g_cons s, g_grant s, sofar s, bout s, berr s, emitted s) = (5000, 5000, 0, 0, 0, 5000).
+Proof. split; [repeat (apply Forall_cons; [cbn; lia|]); apply Forall_nil | vm_compute; reflexivity]. Qed.
